@@ -132,7 +132,8 @@ class SimTerminal:
         self.mbx_queue = []        # messages waiting for the send mailbox
         self.mbx_delay = lambda: 0  # polls before an answer becomes visible
         self.mbx_wait = 0
-        self.mbx_log = []          # ("w", raw) master wrote / ("r", raw) master read
+        self.mbx_log = []          # ("w", raw, False) master wrote / ("r", raw, busy) master read
+        self.mbx_busy = lambda: False   # more answers of the same exchange to come?
         self.sm_open = {}          # sm index -> True while a buffer access is open
         self.sm_full = {}          # sm index -> mailbox full flag
         # process data application: called once per frame that touches us
@@ -356,7 +357,8 @@ class SimTerminal:
             if ado + n == start + length:   # last byte read: mailbox empty again
                 self.sm_open[i] = False
                 self.sm_full[i] = False
-                self.mbx_log.append(("r", bytes(self.mem[start:start + length])))
+                self.mbx_log.append(("r", bytes(self.mem[start:start + length]),
+                                     bool(self.mbx_queue) or bool(self.mbx_busy())))
                 self.world.log(self.name, "mbx-read", bytes(self.mem[start:start + 16]))
             return data
         return bytes(self.mem[ado:ado + n])
@@ -404,7 +406,7 @@ class SimTerminal:
             if ado + n == start + length:   # last byte written: mailbox full
                 self.sm_open[i] = False
                 raw = bytes(self.mem[start:start + length])
-                self.mbx_log.append(("w", raw))
+                self.mbx_log.append(("w", raw, False))
                 self.world.log(self.name, "mbx-write", raw[:24])
                 self._mailbox_received(i, raw)
             return True
